@@ -207,6 +207,7 @@ static void gen_c15(Rng &r, Case &c, bool thorough) {
     static const int BUD_ERR[] = {28 /*ENOSPC*/, 27 /*EFBIG*/, 122 /*EDQUOT*/};
     auto add = [&](FaultSpec f) { plan.steps.push_back(saveStep(static_cast<int64_t>(r.below(4)), f)); };
     for (int e : OPEN_ERR) { FaultSpec f; f.open_errno = e; add(f); }
+    { FaultSpec f; f.dest_is_dir = true; add(f); } // the destination exists and is a directory
     std::vector<int64_t> ks;
     if (thorough && B <= 8192) { for (int64_t k = 0; k < B; ++k) ks.push_back(k); plan.notes.push_back("exhaustive: every byte offset 0.." + tos(B - 1) + " and every write call 1.." + tos(N)); }
     else {
@@ -695,6 +696,35 @@ CaseResult run_case(const Case &c, volatile uint64_t *progress) {
                 v.detail = "the same plan produced a different trace under different heap contents";
                 res.viol.push_back(v);
                 break;
+            }
+        }
+    }
+    if (c.epochs > 1 && res.viol.empty()) {
+        // C14 (d): saving is pure, so a history must write the same final bytes with and without its earlier saves/prints
+        bool hasReload = false, hasSave = false;
+        for (auto &st : plan.steps) { if (st.op == OP_RELOAD) hasReload = true; if (st.op == OP_SAVE || st.op == OP_PRINT) hasSave = true; }
+        if (!hasReload && hasSave) {
+            Plan withSaves = plan, withoutSaves = plan;
+            withoutSaves.steps.clear();
+            for (auto &st : plan.steps) if (st.op != OP_SAVE && st.op != OP_PRINT) withoutSaves.steps.push_back(st);
+            Step fin; fin.op = OP_SAVE; fin.i = {6};
+            withSaves.steps.push_back(fin); withoutSaves.steps.push_back(fin);
+            ExecCfg c2 = cfg; c2.oracles = 0; c2.keep_images = true;
+            disk_clear_prefix(disk_root() + "/a0/");
+            RunResult ra = run_plan(withSaves, c2);
+            disk_clear_prefix(disk_root() + "/a0/");
+            RunResult rb = run_plan(withoutSaves, c2);
+            res.evaluations += 2;
+            if (ra.has_object && rb.has_object && !ra.images.empty() && !rb.images.empty() && !ra.recs.empty() && !rb.recs.empty() &&
+                !ra.recs.back().threw && !rb.recs.back().threw && hash_snapshot(ra.final_snap) == hash_snapshot(rb.final_snap)) {
+                res.extra["history-independence-compared"] = 1;
+                if (ra.images.back() != rb.images.back()) {
+                    size_t off = 0;
+                    while (off < ra.images.back().size() && off < rb.images.back().size() && ra.images.back()[off] == rb.images.back()[off]) ++off;
+                    Violation v; v.prop = "C14"; v.key = "C14/earlier-saves-change-later-bytes"; v.step = -1;
+                    v.detail = "two equal objects (same history, one of them also saved/printed on the way) wrote different files, first at offset " + tos(off);
+                    res.viol.push_back(v);
+                }
             }
         }
     }
